@@ -99,12 +99,15 @@ def glue_lines(case, ename="E", path="super::d"):
     n = len(vs)
     L = []
     L.append(f"use {path}::{ename} as E;")
-    L.append(f"const VARS: [E; {n}] = [{', '.join('E::' + v['ident'] for v in vs)}];")
+    pairs = ", ".join('("%s", E::%s)' % (v["ident"], v["ident"]) for v in vs)
+    L.append("static VS: [(&'static str, E); %d] = [%s];" % (n, pairs))
+    L.append("struct Vars; impl ::core::ops::Index<usize> for Vars { type Output = E; fn index(&self, i: usize) -> &E { &VS[i].1 } }")
+    L.append("static VARS: Vars = Vars;")
     L.append(f"fn cv(v: E) -> u128 {{ (v as {r}) as u128 }}")
     L.append("pub fn case() -> ::rt::Case {")
     L.append("    let mut c = ::rt::Case::default();")
     L.append(f"    c.id = {case['id']}; c.signed = {'true' if prim.signed(r) else 'false'};")
-    L.append("    c.variants = vec![" + ", ".join(f'("{v["ident"]}", cv(E::{v["ident"]}))' for v in vs) + "];")
+    L.append("    c.variants = VS.iter().map(|(n, v)| (*n, cv(*v))).collect();")
     if "try_from" in nm:
         L.append(f"    c.try_from = Some(|b| {{ let r: ::core::option::Option<E> = E::{nm['try_from']}(b as {r}); r.map(cv) }});")
     if "TryFrom" in nm:
